@@ -74,6 +74,9 @@ def run(ctx):
                             f"{rel_}:{clo_.lineno}")
             elif any(isinstance(w_, (ast.Lambda,)) for w_ in ast.walk(fn_)):
                 rep.ok("C04.R8", f"{rel_}:{q_}", "closures of this function bind no loop variable late")
+    rep.rule("C04.R9", "memoised kinematics of the discrete bodies return fresh arrays; nobody in cardillo/discrete modifies a memoised result in place (K18)", 4)
+    from .. import cachepurity as _cp
+    _cp.report(ctx, "C04.R9", ("cardillo/discrete/",), floor_note=False)
     rep.rule("C04.R1", "chain-rule coverage (K5) of the discrete bodies", 15)
     rep.rule("C04.R2", "Frame time chain", 4)
     rep.rule("C04.R3", "offset dependence of the point kinematics family", 10)
@@ -237,4 +240,11 @@ MUTANTS += [
 NEUTRAL = [
     dict(id="c04-n-r6", what="RigidBody.A_IB spells the default out", file=RB,
          old="        return Exp_SO3_quat(q[3:])\n", new="        return Exp_SO3_quat(q[3:], normalize=True)\n"),
+]
+RBF_ = "cardillo/discrete/rigid_body.py"
+MUTANTS += [
+    dict(id="c04-r9-seed", canary=True, what="[seeded by sub-agent] RigidBody.J_P fills and returns one per-body buffer", file=RBF_,
+         edits=[(RBF_, "        J_P = np.zeros((3, self.nu), dtype=q.dtype)\n        J_P[:, :3] = np.eye(3)\n", "        J_P = self._J_P_buffer\n"),
+                (RBF_, "        self.constant_mass_matrix = True\n", "        self.constant_mass_matrix = True\n        self._J_P_buffer = np.zeros((3, self.nu), dtype=float)\n        self._J_P_buffer[:, :3] = np.eye(3, dtype=float)\n")],
+         expect="C04.R9"),
 ]
